@@ -4,6 +4,7 @@ import (
 	"go/token"
 	"go/types"
 	"sort"
+	"strings"
 
 	"golang.org/x/tools/go/ssa"
 )
@@ -317,4 +318,70 @@ func runAccumRule(c *Ctx, rule string, inScope func(*ssa.Function) bool) {
 		c.Check(rule, k+"#"+itoa(perFn[k]), s.call.Pos(), s.ok, FuncKey(s.fn)+" adds to its parameter "+name+" but the recursive call at "+p.Pos(s.call.Pos())+" passes a value that is not computed from it: the count restarts at every level of nesting (nested groups, embedded structs)")
 	}
 	c.Stats[rule+".recursive_accumulator_calls"] = len(sites)
+}
+
+// runColumnAdvanceRule — a loop that keeps a running leaf-column index while it
+// walks the fields of a group advances it by the number of leaf columns of
+// every field it passes, whether or not it does anything else with the field:
+// once the header phi of such a loop is advanced by the result of one of the
+// leaf-counting helpers (numLeafColumns*), no path around the loop leaves it
+// unchanged. A field that is skipped without being counted shifts every later
+// column by its width.
+func runColumnAdvanceRule(c *Ctx, rule string, min int) {
+	p := c.P
+	n := 0
+	for _, fn := range p.ModuleSSAFuncs() {
+		if fn.Origin() != nil || fn.Blocks == nil || fnPkgPath(fn) != modPath {
+			continue
+		}
+		k := 0
+		for _, b := range fn.Blocks {
+			for _, ins := range b.Instrs {
+				phi, ok := ins.(*ssa.Phi)
+				if !ok || !isNumericBasic(phi.Type()) {
+					continue
+				}
+				unchanged, counted := false, false
+				for i, e := range phi.Edges {
+					if !b.Dominates(b.Preds[i]) {
+						continue
+					}
+					var walk func(v ssa.Value, seen map[ssa.Value]bool)
+					walk = func(v ssa.Value, seen map[ssa.Value]bool) {
+						if seen[v] {
+							return
+						}
+						seen[v] = true
+						if v == ssa.Value(phi) {
+							unchanged = true
+							return
+						}
+						if ph, ok := v.(*ssa.Phi); ok && ph.Block() != b {
+							for _, e2 := range ph.Edges {
+								walk(e2, seen)
+							}
+							return
+						}
+						if bo, ok := v.(*ssa.BinOp); ok && bo.Op == token.ADD && derivesFromValue(bo, phi, map[ssa.Value]bool{}) {
+							for _, side := range []ssa.Value{bo.X, bo.Y} {
+								for _, o := range Origins(side, OriginOpts{}) {
+									if o.Kind == OrgCall && strings.HasPrefix(strings.TrimPrefix(calleeName(o.Call), "("), "numLeafColumns") {
+										counted = true
+									}
+								}
+							}
+						}
+					}
+					walk(e, map[ssa.Value]bool{})
+				}
+				if !counted {
+					continue
+				}
+				n++
+				k++
+				c.Check(rule, FuncKey(fn)+" counts the leaf columns of every field it passes#"+itoa(k), phi.Pos(), !unchanged, FuncKey(fn)+" advances its running column index ("+phi.Comment+") by the leaf columns of a field on some paths through the loop only: a field that is skipped without being counted shifts the column index of every field after it")
+			}
+		}
+	}
+	c.Min(rule, min)
 }
